@@ -17,7 +17,7 @@ func c06Pick() []int {
 	var r []int
 	for i, f := range c01Families {
 		q := f.query
-		if strings.Contains(q, "nodes {") || strings.Contains(q, "users {") || strings.Contains(q, "strict {") || strings.Contains(q, "friends {") {
+		if strings.Contains(q, "nodes {") || strings.Contains(q, "users {") || strings.Contains(q, "strict {") || strings.Contains(q, "friends {") || strings.Contains(q, "box {") {
 			r = append(r, i)
 		}
 	}
